@@ -68,12 +68,7 @@ def runPrev (n : Nat) : List (Member S P) :=
   let ms := pairs.foldl (fun ms x => doDeal ms x.1 x.2) ms
   pairs.foldl (fun ms x => doResps ms x.1 x.2) ms
 
-def genOf (m : Member S P) : Option (Gen S P) :=
-  match m.stage with
-  | .waitDeals d => some d
-  | .waitResps d => some d
-  | .done d _ => some d
-  | _ => none
+def genOf (m : Member S P) : Option (Gen S P) := m.lastGen
 
 /-- `Dealer.SessionID()` of member `j`'s own dealing; empty bytes before the generator exists -/
 def curSid (ms : List (Member S P)) (j : Nat) : Sid P :=
